@@ -1765,8 +1765,12 @@ func (v *Verifier) verifyFunc(fn *ssa.Function, con *Contract, name string) {
 			v.topVars[p.Name()] = Val{t, p.Type()}
 		}
 	}
+	v.localCells = nil
 	for _, fv := range fn.FreeVars {
 		t := mk(v.sortOf(fv.Type()), "zz_fv_"+sanitize(fv.Name()))
+		if t.Sort == "Ptr" {
+			v.localCells = append(v.localCells, t)
+		}
 		v.D.declConst(t.Op, t.Sort)
 		if t.Sort == "Ptr" {
 			st.assume(tNotFresh(t))
